@@ -238,6 +238,7 @@ structure Write (cfg : RCfg) (sg : Sigs) (s : Sys) (e : Env) (inp : Input) (pre 
   toutQC : ∀ t, Msg.timeout t ∈ msgs → t.highQC = (step cfg s.r e inp).r.highCommitQC
   wf : Wf cfg (step cfg s.r e inp).r
   ra : RAuth sg (step cfg s.r e inp).r
+  qle : QLe s.r.highCommitQC (step cfg s.r e inp).r.highCommitQC
 
 /-- the effects of a step from an invariant state: nothing durable, or exactly one durable write -/
 theorem step_write_cases {cfg : RCfg} {sg : Sigs} {s : Sys} {h : List Durable} (hI : LAInv cfg sg s h) (e : Env)
@@ -253,7 +254,7 @@ theorem step_write_cases {cfg : RCfg} {sg : Sigs} {s : Sys} {h : List Durable} (
     · exact absurd hmem (hq.no_persist d')
     · have hd : d' = (step cfg s.r e inp).r.durable := ha.persist d' hmem
       subst hd
-      refine Or.inr ⟨pre, msgs, h1, h2, hacc, hsum.kind _ hmem, h4, ?_, ha.wf, hsum.auth⟩
+      refine Or.inr ⟨pre, msgs, h1, h2, hacc, hsum.kind _ hmem, h4, ?_, ha.wf, hsum.auth, hsum.qle⟩
       intro t htm
       have : Effect.send (Msg.timeout t) ∈ (step cfg s.r e inp).effs := by
         rw [h1]
